@@ -181,3 +181,328 @@ def k1_matches(has2tors, p, pts, subgroup_even=False):
     if subgroup_even:
         return True
     return any(P is not None and P[1] % p == 0 for P in pts)
+
+
+# ------------------------------------------------------------------------------------------------ running operations
+def run_op(op, curve, args):
+    """run one wire operation on the REAL code; returns the canonical answer string (raises what the code raises)"""
+    E = ec()
+    o = [a.make(curve) if isinstance(a, Spec) else a for a in args]
+    if op in ("pj_add", "pt_add", "aff_add"):
+        return show(o[0] + o[1])
+    if op in ("pj_eq", "pt_eq", "aff_eq"):
+        return str(o[0] == o[1])
+    if op == "pj_x":
+        return str(o[0].x())
+    if op == "pj_y":
+        return str(o[0].y())
+    if op == "pj_scale":
+        return raw(o[0].scale())
+    if op == "pj_to_affine":
+        return raw(o[0].to_affine())
+    if op == "pj_from_affine":
+        return raw(E.PointJacobi.from_affine(o[0], bool(o[1])))
+    if op in ("pj_double", "pt_double", "aff_double"):
+        return show(o[0].double())
+    if op in ("pj_neg", "pt_neg", "aff_neg"):
+        return show(-o[0])
+    if op in ("pj_mul", "pt_mul", "aff_mul"):
+        return show(o[0] * o[1])
+    if op == "pj_mul_add":
+        return show(o[0].mul_add(o[1], o[2], o[3]))
+    if op == "precompute":
+        o[0]._maybe_precompute()
+        return "[" + ",".join("%d:%d" % e for e in o[0]._PointJacobi__precompute) + "]"
+    if op == "k_add":
+        return "%d %d %d" % E.PointJacobi(curve, 0, 0, 1)._add(o[0], o[1], o[2], o[3], o[4], o[5], curve.p())
+    if op == "k_double":
+        return "%d %d %d" % E.PointJacobi(curve, 0, 0, 1)._double(o[0], o[1], o[2], curve.p(), curve.a())
+    if op == "contains_point":
+        return str(bool(curve.contains_point(o[0], o[1])))
+    if op == "mk_point":
+        return raw(E.Point(curve, o[0], o[1], o[2]))
+    raise KeyError(op)
+
+
+def argtok(a):
+    if isinstance(a, Spec):
+        return a.tok()
+    if a is None:
+        return "N"
+    if isinstance(a, bool):
+        return "1" if a else "0"
+    return str(a)
+
+
+def line(op, curve, args):
+    return "%s %s %s" % (op, ctok(curve), " ".join(argtok(a) for a in args))
+
+
+class Stream:
+    """a Corr that is run and emptied every `chunk` lines (bounds memory); same histograms for all chunks"""
+
+    def __init__(self, ctx, name, chunk=100000):
+        from lib.common import Corr
+        self.Corr, self.ctx, self.name, self.chunk = Corr, ctx, name, chunk
+        self.c = Corr(ctx, name)
+        self.n = 0
+        self.disagreements = []
+
+    def op(self, op, curve, args, tag=""):
+        self.c.add(line(op, curve, args), lambda: run_op(op, curve, args), tag)
+        self._tick()
+
+    def raw_line(self, text, thunk, tag=""):
+        self.c.add(text, thunk, tag)
+        self._tick()
+
+    def _tick(self):
+        self.n += 1
+        if len(self.c.lines) >= self.chunk:
+            self.flush()
+
+    def flush(self):
+        if self.c.lines:
+            self.disagreements += self.c.run()[:20]
+        self.c = self.Corr(self.ctx, self.name)
+
+
+# ------------------------------------------------------------------------------------------------ tokens <-> Specs
+def parse_tok(tok):
+    """inverse of Spec.tok() (used by replay)"""
+    f = tok.split(",")
+
+    def o(t):
+        return None if t == "N" else int(t)
+    if f[0] == "inf":
+        return INF
+    if f[0] == "J":
+        cv = curve_of(int(f[6]), int(f[7]), int(f[8])) if len(f) == 9 else None
+        return J(int(f[1]), int(f[2]), int(f[3]), o(f[4]), f[5] == "1", cv)
+    if f[0] == "A":
+        cv = curve_of(int(f[4]), int(f[5]), int(f[6])) if len(f) == 7 else None
+        return A(int(f[1]), int(f[2]), o(f[3]), cv)
+    raise ValueError("not a point token: " + tok)
+
+
+def o_val(spec, p, b=None):
+    """ORACLE reading of an operand description: the affine point it denotes (None = O).  Z = 0 (mod p) denotes O;
+    everything else is (X/Z^2, Y/Z^3) — in particular Y = 0, Z != 0 is the point (x, 0) of order 2, NOT the identity.
+    The one exception is the library's own identity triple X = Y = 0 on a curve with b != 0 (where (0, 0) is not a point
+    of the curve): it denotes O (pass `b` to enable it)."""
+    if spec.kind == "inf":
+        return None
+    if spec.kind == "A":
+        return (spec.coords[0] % p, spec.coords[1] % p)
+    x, y, z = spec.coords
+    if z % p == 0:
+        return None
+    if b is not None and b % p != 0 and x % p == 0 and y % p == 0:
+        return None
+    zi = pow(z, -1, p)
+    return (x * zi * zi % p, y * zi * zi * zi % p)
+
+
+def zclass(s1, s2):
+    """which dispatch branch of `_add` a pair of Jacobi operands takes"""
+    if s1.kind != "J" or s2.kind != "J":
+        return s1.kind + s2.kind
+    z1, z2 = s1.coords[2], s2.coords[2]
+    if z1 == z2:
+        return "z1z1" if z1 == 1 else "zeq"
+    if z1 == 1 or z2 == 1:
+        return "z2_1"
+    return "zne"
+
+
+def relation(v1, v2, p):
+    """class of a pair of oracle points"""
+    if v1 is None or v2 is None:
+        return "identity"
+    if v1 == v2:
+        return "same2t" if v1[1] == 0 else "same"
+    if v1[0] == v2[0]:
+        return "opposite"
+    return "generic"
+
+
+# ------------------------------------------------------------------------------------------------ curve selection
+def toy_selection(ctx, extra=0, ps=(5, 7, 11, 13)):
+    """quick: per p one curve of odd group order and one with a point of order 2, chosen with ctx.rng (+ `extra`
+    random further ones); thorough: every curve with non-zero discriminant"""
+    allc = list(toy_curves(ps))
+    if not ctx.quick:
+        return allc
+    sel = []
+    for p in ps:
+        cs = [c for c in allc if c[0] == p]
+        odd = [c for c in cs if not has_two_torsion(*c)]
+        even = [c for c in cs if has_two_torsion(*c)]
+        sel.append(ctx.rng.choice(odd))
+        sel.append(ctx.rng.choice(even))
+    rest = [c for c in allc if c not in sel]
+    ctx.rng.shuffle(rest)
+    return sel + rest[:extra]
+
+
+QUICK_NAMED = ("NIST256p", "SECP256k1", "SECP112r2", "BRAINPOOLP160r1")
+
+
+def named_selection(ctx, n_quick=5):
+    from ecdsa.curves import curves
+    if not ctx.quick:
+        return list(curves)
+    sel = [c for c in curves if c.name in QUICK_NAMED]
+    rest = [c for c in curves if c.name not in QUICK_NAMED]
+    ctx.rng.shuffle(rest)
+    return sel + rest[:max(0, n_quick - len(sel))]
+
+
+def named_has_two_torsion(cv):
+    """group order even  <=>  there is a point of order 2 (of the named curves: only SECP112r2, h = 4)"""
+    h = cv.curve.cofactor()
+    return cv.name == "SECP112r2" or (h is not None and (h * cv.order) % 2 == 0)
+
+
+SECP112R2_T = (0xb1fd8de127d4656b573eb513984d, 0)     # the point of order 2 of SECP112r2 (K1/K2 witness)
+
+
+def big_z(rng, p):
+    while True:
+        z = rng.randrange(2, p)
+        if z % p:
+            return z
+
+
+# ------------------------------------------------------------------------------------------------ search machinery
+class Stop(Exception):
+    pass
+
+
+def case_curve(case):
+    """(real curve object, p, a, has a point of order 2)"""
+    p, a, b = case["curve"]
+    if case.get("name"):
+        from ecdsa.curves import curves
+        cv = [c for c in curves if c.name == case["name"]][0]
+        return cv.curve, p, a, named_has_two_torsion(cv)
+    return curve_of(p, a, b), p, a, has_two_torsion(p, a, b)
+
+
+def is_int(v):
+    return isinstance(v, int) and not isinstance(v, bool)
+
+
+def observe(R, c):
+    """(affine value of a real result object, list of canonical-form defects).  Uses only public observers."""
+    E = ec()
+    p = c.p()
+    probs = []
+    if R is E.INFINITY:
+        return None, probs
+    if isinstance(R, E.PointJacobi):
+        if R == E.INFINITY:
+            if R.to_affine() is not E.INFINITY:
+                probs.append("== INFINITY but to_affine() is a point")
+            return None, probs
+        x, y = R.x(), R.y()
+        if not (is_int(x) and is_int(y) and 0 <= x < p and 0 <= y < p):
+            probs.append("x(), y() not canonical residues: (%r, %r)" % (x, y))
+        try:
+            ref = E.Point(c, x, y)
+        except AssertionError:
+            probs.append("(x(), y()) = (%r, %r) is not on the curve" % (x, y))
+            return (x, y), probs
+        aff = R.to_affine()                         # scales R in place
+        if aff is E.INFINITY or not isinstance(aff, E.Point):
+            probs.append("to_affine() of a point that is != INFINITY is %r" % (aff,))
+            return (x, y), probs
+        if (aff.x(), aff.y()) != (x, y) or not (aff == ref) or not (ref == aff):
+            probs.append("to_affine() = (%r, %r) differs from Point(curve, x(), y()) = (%r, %r)" % (aff.x(), aff.y(), x, y))
+        if (R.x(), R.y()) != (x, y):
+            probs.append("x(), y() changed after to_affine(): (%r, %r) -> (%r, %r)" % (x, y, R.x(), R.y()))
+        aff2 = R.to_affine()
+        if aff2 is E.INFINITY or (aff2.x(), aff2.y()) != (x, y):
+            probs.append("second to_affine() differs")
+        sc = R.scale()
+        if sc is not R or (sc.x(), sc.y()) != (x, y):
+            probs.append("scale() changed the value")
+        if not (R == aff) or not (aff == R) or (R != aff):
+            probs.append("result != its own to_affine()")
+        if not (R == R):
+            probs.append("result != itself")
+        return (x, y), probs
+    if R.curve() is None:
+        return None, probs
+    x, y = R.x(), R.y()
+    if not (is_int(x) and is_int(y) and 0 <= x < p and 0 <= y < p):
+        probs.append("legacy Point coordinates not canonical residues: (%r, %r)" % (x, y))
+    if not c.contains_point(x, y):
+        probs.append("legacy Point (%r, %r) not on the curve" % (x, y))
+    return (x, y), probs
+
+
+def lst(v):
+    return None if v is None else [int(v[0]), int(v[1])]
+
+
+def cmp_result(step, R, c, want, out, involved=()):
+    """compare a real result object with the oracle value; append a failure description to `out`.
+    `involved` = oracle points taking part in this step besides the operands of the case (for the K1 predicate)"""
+    got, probs = observe(R, c)
+    got = None if got is None else (got[0], got[1])
+    if got != want:
+        out.append({"step": step, "observed": lst(got) if got else "INFINITY", "expected": lst(want) if want else "INFINITY",
+                    "pts": list(involved) + [want]})
+    elif probs:
+        out.append({"step": step, "observed": probs, "expected": "canonical result equal to " + str(lst(want)),
+                    "pts": list(involved) + [want]})
+
+
+class Searcher:
+    MAX_GENUINE, MAX_K1 = 3, 20
+
+    def __init__(self, ctx, check):
+        """`check(case)` -> None | {"observed", "expected", "k1": bool, "all_failures"}"""
+        self.ctx, self.check, self.n, self.genuine, self.k1 = ctx, check, 0, 0, 0
+        self.seen, self.nontrivial = set(), 0
+
+    def case(self, case, cls):
+        self.n += 1
+        h = hash(repr(case))
+        if h not in self.seen:
+            self.seen.add(h)
+            if not any(w in cls for w in ("identity", ".inf", "sentinel")):
+                self.nontrivial += 1
+        self.ctx.hist("search.class", cls)
+        bad = self.check(case)
+        if bad is None:
+            return True
+        rec = {"input": case, "observed": bad["observed"], "expected": bad["expected"], "class": cls,
+               "all_failures": bad["all_failures"]}
+        if bad["k1"]:
+            self.k1 += 1
+            self.ctx.hist("search.K1", cls)
+            if self.k1 <= self.MAX_K1:
+                rec["known"] = "K1"
+                self.ctx.violation(rec)
+            return False
+        self.genuine += 1
+        self.ctx.hist("search.violations", cls)
+        self.ctx.violation(rec)
+        if self.genuine >= self.MAX_GENUINE:
+            raise Stop()
+        return False
+
+
+def mkcase(cur, check, args, name=None):
+    d = {"curve": list(cur), "check": check, "args": args}
+    if name:
+        d["name"] = name
+    return d
+
+
+def tk(s):
+    return s.tok()
+
+
